@@ -465,6 +465,97 @@ pub fn run(ctx: &mut Ctx) {
         }
     }
     ctx.count_n("enumeration-depth", if ctx.shard == 0 { depth as u64 } else { 0 });
+    // ---- every one of the 65 536 type codes (except the three sealing ones) through the raw entry
+    //      point: a second attribute of the same type is refused, before and after a seal ----
+    {
+        use stun_types::message::{MessageClass, MessageType};
+        for t in 0..=0xffffu32 {
+            idx += 1;
+            if !ctx.mine(idx) {
+                continue;
+            }
+            let t = t as u16;
+            if t == MI || t == MI256 || t == FP {
+                continue;
+            }
+            ctx.eval();
+            let r = guard(|| {
+                let mut b = Message::builder(MessageType::from_class_method(MessageClass::Request, 1), imp::tid_from_bytes(&[7; 12]));
+                let first = b.add_raw_attribute(RawAttribute::new(AttributeType::new(t), &[1, 2, 3])).is_ok();
+                let before = b.build();
+                let dup = b.add_raw_attribute(RawAttribute::new(AttributeType::new(t), &[4])).is_ok();
+                let unchanged = b.build() == before;
+                let fp = b.add_fingerprint().is_ok();
+                let sealed = b.build();
+                let after_seal = b.add_raw_attribute(RawAttribute::new(AttributeType::new(t), &[5, 6])).is_ok();
+                let other = if t == 0x7e7e { 0x7e7f } else { 0x7e7e };
+                let other_after_seal = b.add_raw_attribute(RawAttribute::new(AttributeType::new(other), &[])).is_ok();
+                (first, dup, unchanged, fp, after_seal, other_after_seal, b.build() == sealed, b.has_attribute(AttributeType::new(t)))
+            });
+            match r {
+                Ok((true, false, true, true, false, false, true, true)) => ctx.count("type-codes-swept"),
+                other => ctx.violation(
+                    "C11",
+                    "rule-table",
+                    "MessageBuilder::add_raw_attribute",
+                    "type-sweep",
+                    || json!({"kind": "builder-type-sweep", "type": t}),
+                    "first add accepted; duplicate refused without trace; fingerprint accepted; the type and another type refused after it without trace; has_attribute true".into(),
+                    format!("(first, duplicate, unchanged, fingerprint, after-seal, other-after-seal, unchanged, has) = {other:?}"),
+                ),
+            }
+        }
+    }
+    // ---- a builder that already holds ~64 KiB: further adds and seals that still fit the 16-bit
+    //      length field are accepted like any other ----
+    for pad in [65_400usize, 65_440, 65_464, 65_480, 65_492, 65_500] {
+        idx += 1;
+        if !ctx.mine(idx) {
+            continue;
+        }
+        ctx.eval();
+        let big = vec![0x42u8; pad];
+        let icreds = imp::to_impl_creds(&creds);
+        let r = guard(|| {
+            use stun_types::message::{MessageClass, MessageType};
+            let mut b = Message::builder(MessageType::from_class_method(MessageClass::Request, 1), imp::tid_from_bytes(&[8; 12]));
+            let a = b.add_raw_attribute(RawAttribute::new(AttributeType::new(0x7e00), &big)).is_ok();
+            // body so far: 4 + pad.  Each of the following fits below 65 532 body bytes only while it does.
+            let mut body = 4 + pad;
+            let mut out = vec![a];
+            // only operations whose result still fits the 16-bit length field (65 532 body bytes) are
+            // attempted: what the builder does beyond that is not specified by the property
+            let mut did_mi = false;
+            if body + 8 <= 65_532 {
+                out.push(b.add_raw_attribute(RawAttribute::new(AttributeType::new(0x7e01), &[1, 2, 3, 4])).is_ok());
+                body += 8;
+            }
+            if body + 24 <= 65_532 {
+                out.push(b.add_message_integrity(&icreds, IntegrityAlgorithm::Sha1).is_ok());
+                body += 24;
+                did_mi = true;
+            }
+            if body + 8 <= 65_532 {
+                out.push(b.add_fingerprint().is_ok());
+                body += 8;
+            }
+            let bytes = b.build();
+            let parses = Message::from_bytes(&bytes).map(|m| m.validate_integrity(&icreds).is_ok() || !did_mi).unwrap_or(false);
+            (out, bytes.len() == 20 + body, parses, body)
+        });
+        match r {
+            Ok((out, true, true, _)) if out.iter().all(|x| *x) => ctx.count("near-64k-builders"),
+            other => ctx.violation(
+                "C11",
+                "rule-table",
+                "MessageBuilder",
+                "near-64k",
+                || json!({"kind": "builder-near-64k", "pad": pad}),
+                "adds and seals that fit the 16-bit length field are accepted; the result parses and validates".into(),
+                format!("{other:?}"),
+            ),
+        }
+    }
     // ---- the same, starting from each kind of canned response (depth 4) ----
     for start in 1..=4u8 {
         for len in 0..=4usize {
@@ -529,6 +620,8 @@ pub fn run(ctx: &mut Ctx) {
     }
     ctx.require("refused-operations", 10_000);
     ctx.require("canned-response-sequences", 10_000);
+    ctx.require("type-codes-swept", 100_000);
+    ctx.require("near-64k-builders", 6);
     ctx.require("final-state-parsed", 10_000);
     ctx.require("final-state-validated", 5_000);
     ctx.require("random-sequences", 1_000);
